@@ -3,7 +3,9 @@ from common import COMMON_TB
 CFG = {
     "technique": "Lean 4 invariants over all operation histories of an executable model of waddrmgr's lock state, "
                  "clear-text buffers and caches + differential run of the real Manager on a real bdb file with the "
-                 "build-tagged buffer report",
+                 "build-tagged buffer report + wallet-level model WalletRestart (passphrase ids in memory vs in the database) "
+                 "with a differential run of a real wallet.Wallet against a wallet restarted on a copy of the database "
+                 "after every request (engine wallet-restart)",
     "level_text": "C05's clauses (private operations refused while locked/watching-only; lock() wipes every clear-text "
                   "key buffer incl. cached derived keys and cached last addresses; the current passphrase always "
                   "unlocks, any other fails and leaves the manager locked; passphrase change) are Lean theorems over "
@@ -26,19 +28,39 @@ CFG = {
                   "clear-text key (stays wiped while locked, with the F13 fix). The older "
                   "C05_unlock_wrong/_right_histories_partial (hypotheses 'f12 or no EMPTY passphrase', DouOK) are kept "
                   "and superseded. 'Current passphrase' is the one held by the running manager (C05_currentPass_*); "
-                  "after a rolled-back bracket with a private change it differs from the database's (observation O3).",
-    "lean_props": ["BtcwVerif.Props.C05"],
-    "engines": ["addrmgr-lock"],
+                  "after a rolled-back bracket with a private change it differs from the database's (observation O3). "
+                  "Wallet level (engine wallet-restart, Props/C05w.lean): Wallet.Unlock / ChangePrivatePassphrase / "
+                  "ChangePublicPassphrase / ChangePassphrases / restart next to every other wallet request; proved for ALL "
+                  "request histories (failed commits of the address requests, dry runs, failing requests, FAILED combined "
+                  "changes, restarts): the running wallet and a restarted wallet accept exactly the same private passphrase "
+                  "(C05_wallet_priv_invariant, C05_wallet_unlock_current), any other is refused with ErrWrongPassphrase and "
+                  "leaves the wallet locked (C05_wallet_unlock_other_fails_locked), a successful change makes the new one "
+                  "current at once and after restart, a refused one changes nothing (C05_wallet_change_private_works). "
+                  "False on the current tree and NOT flagged this round (public passphrase only): a combined change whose "
+                  "private half fails leaves the new PUBLIC master key in the running manager "
+                  "(C05_wallet_counterexample_failed_combined_change_public; fix in repo-patches/"
+                  "fix-C05-changepassphrases-public-half-rollback.diff, C05_wallet_fixed_combined_change). Go oracles at the "
+                  "wallet level evaluate C05's unlock sentence on the running wallet against the restarted copy "
+                  "(keys <WalletOp>.current-passphrase-refused / .other-passphrase-accepted / "
+                  ".running-wallet-passphrase-differs-from-restart, ImportAccountDryRun.unlock-fails-unlike-restart).",
+    "lean_props": ["BtcwVerif.Props.C05", "BtcwVerif.Props.C05w"],
+    "engines": ["addrmgr-lock", "wallet-restart"],
     "trusted_base": COMMON_TB + [
         "hand-written model BtcwVerif/Model/AddrLock.lean of waddrmgr/{manager,scoped_manager,address,sync,db}.go (tied by differential run)",
         "build-tagged hook waddrmgr.(*Manager).VerifBufferReport (reads unexported buffers; add-only)",
         "snacl KDF/AEAD modelled symbolically: a passphrase unlocks iff it equals the one the stored parameters were made from (C17 covers the byte level)",
+        "hand-written model BtcwVerif/Model/WalletRestart.lean (wallet requests incl. passphrase changes; tied by differential run against a real "
+        "wallet.Wallet and a wallet restarted on a copy of the database after every request)",
+        "wallet level: the concurrent AddressInfo of op `importdry race=1` is steered by goroutine-dump observation and sync.Mutex's "
+        "starvation hand-off; no verdict depends on the interleaving reached",
         "Go map iteration order inside Manager.Unlock/lock is modelled as ascending scope order (irrelevant on the fixed tree: no error path depends on it)",
     ],
     "assumptions": [
         "distinct passphrases give distinct scrypt digests (cryptographic hypothesis, stated as equality of passphrase ids)",
         "the four default key scopes; NewScopedKeyManager, NeuterRootKey and InvalidateAccountCache are outside the modelled op set",
         "uint32 indices modelled as Nat (MaxAddressesPerAccount guard modelled; no wrap-around reachable)",
+        "wallet level: a failed COMMIT of a passphrase change is not generated (memory ahead of disk after a failed commit is the known C08 family); "
+        "four private and three public passphrase ids, none empty",
         "memory wiping means: buffers reachable from the Manager are zero/nil (hook); copies handed to callers are the caller's",
     ],
 }
